@@ -62,6 +62,10 @@ void lp_variable_order_reverse(lp_variable_order_t* var_order) {
       vars[first] = vars[last];
       vars[last] = tmp;
     }
+    // Keep the index map (used by lp_variable_order_cmp and pop) in sync with the list
+    for (first = 0; first < size; ++ first) {
+      var_order->list.var_to_index_map[vars[first]] = first;
+    }
   }
 }
 
